@@ -401,7 +401,7 @@ def _mask_paths(v):
     return v
 
 
-def _child(files, calls, fs_faults, pre_calls):
+def _child(files, calls, fs_faults, pre_calls, entry='builder'):
     from awesomeyaml import Builder, Config, errors
     import io
     fs = simfs.SimFS(files, cwd=CWD, home=HOME, faults=fs_faults).install()
@@ -420,6 +420,17 @@ def _child(files, calls, fs_faults, pre_calls):
         sched.begin_op('build', 3_000_000)
         stage = 'add'
         try:
+            if entry == 'cmdline':
+                # the command-line entry point: short argument names resolved by a lookup function
+                table = {f'arg{i}': c['path'] for i, c in enumerate(calls)}
+                stage = 'build'
+                cfg = Config.build_from_cmdline(*table.keys(), filename_lookup_fn=lambda name: table[name])
+                out['status'] = 'ok'
+                paths = {}
+                _walk_paths(cfg, paths)
+                out['paths'] = paths
+                out['cfg'] = observe.native(_mask_paths(cfg))
+                raise _Done()
             b = Builder()
             for c in pre_calls:
                 try:
@@ -440,6 +451,8 @@ def _child(files, calls, fs_faults, pre_calls):
             _walk_paths(cfg, paths)
             out['paths'] = paths
             out['cfg'] = observe.native(_mask_paths(cfg))
+        except _Done:
+            pass
         except sched.SimTimeout:
             out['status'] = 'timeout'
         except Exception as e:
@@ -457,9 +470,13 @@ def _child(files, calls, fs_faults, pre_calls):
     return out
 
 
-def _run(mat, fs_faults=(), pre_calls=(), drop=()):
+class _Done(Exception):
+    pass
+
+
+def _run(mat, fs_faults=(), pre_calls=(), drop=(), entry='builder'):
     files = {k: v for k, v in mat['files'].items() if k not in drop}
-    c = core.fork_call(_child, (files, mat['calls'], list(fs_faults), list(pre_calls)), timeout=40)
+    c = core.fork_call(_child, (files, mat['calls'], list(fs_faults), list(pre_calls), entry), timeout=40)
     if c['status'] != 'ok':
         raise core.HarnessError(f'{c["status"]}: {c.get("error", c.get("signal", ""))}')
     return c['value']
@@ -568,6 +585,16 @@ def execute(sc):
                     break
                 if not _check_paths(sc, mat, obs, res, label):
                     break
+                if all('path' in c for c in mat['calls']) and pi == 0:
+                    ob2 = _run(mat, entry='cmdline')
+                    st['runs'] += 1
+                    count(probes, 'entry:build_from_cmdline')
+                    if ob2['status'] != 'ok' or ob2['cfg'] != ref['cfg']:
+                        d = _first_diff(ob2.get('cfg'), ref['cfg']) if ob2['status'] == 'ok' else ('status', ob2.get('exc'), 'ok')
+                        res['violations'].append(core.violation('route.config', f'{label} through Config.build_from_cmdline(filename_lookup_fn=...) differs from separate sources at {d[0]}: {d[1]!r} vs {d[2]!r}', kinds='cmdline'))
+                        break
+                    if not _check_lookup(mat, ob2, res, label + ' (cmdline)') or not _check_paths(sc, mat, ob2, res, label + ' (cmdline)'):
+                        break
             else:
                 if obs['exc']['is_ay'] != ref['exc']['is_ay']:
                     pass   # error class may differ by route (MergeError vs PremergeError); only success/failure is compared
